@@ -9,8 +9,8 @@ CLAIMED = True
 PREDICATES = S.PREDICATES
 
 PROP = dict(
-    proof_modules=["VrpProofs.C01", "VrpProofs.C01Reload", "VrpProofs.C06", "VrpProofs.C06Cap", "VrpProofs.C06CapVec"],
-    model_modules=["VrpModel.Route", "VrpModel.C06", "VrpModel.C01Reload", "VrpModel.Prag", "VrpModel.Spec"],
+    proof_modules=["VrpProofs.C01", "VrpProofs.C01Reload", "VrpProofs.C01Reach", "VrpProofs.C06", "VrpProofs.C06Cap", "VrpProofs.C06CapVec"],
+    model_modules=["VrpModel.Route", "VrpModel.C06", "VrpModel.C01Reload", "VrpModel.C01Reach", "VrpModel.Prag", "VrpModel.Spec"],
     drv="drv_c01", bin="c01", share_run=True, corpus_ids=["C01", "C02", "C03"],
     secondary=[dict(bin="c04", drv="drv_c04", keys=["assigned_part_feasible"], corpus_ids=["C04"],
                     label="operator histories of C04: the assigned part of every step's solution keeps the hard rules")],
